@@ -108,10 +108,10 @@ func serverMain() {
 			bw.Flush()
 			os.Exit(0)
 		}
+		// every answer leaves the process before the next decode starts: the first unanswered
+		// request is then exactly the one that ended the process
 		bw.Write(resp)
-		if br.Buffered() == 0 {
-			bw.Flush()
-		}
+		bw.Flush()
 	}
 }
 
@@ -308,7 +308,11 @@ func runBatch(sp **server, outDir string, reqs []req) ([]res, error) {
 			case r := <-s.ch:
 				if r.err != nil {
 					s.in.Close()
+					t0 := time.Now()
 					d := s.diedHow()
+					if dbg {
+						fmt.Fprintf(os.Stderr, "DBG death after %v since last answer; diedHow %v; %s\n", t0.Sub(lastAnswer), time.Since(t0), d.Reason)
+					}
 					out[next] = res{died: &d}
 					dead = true
 					break
